@@ -457,3 +457,16 @@ Definition selected_param {P} (grid : list P) (errs : list Z) : option P :=
   | Some (b, _) => nth_error grid b
   | None => None
   end.
+
+(* ------------------------------------------------------------------------------------------ *)
+(** * the `method` argument is case-insensitive: `method = method.lower()` before every comparison *)
+Definition lower_ascii (c : Ascii.ascii) : Ascii.ascii :=
+  let n := Ascii.nat_of_ascii c in
+  if (Nat.leb 65 n && Nat.leb n 90)%bool then Ascii.ascii_of_nat (n + 32) else c.
+Fixpoint lower (s : string) : string :=
+  match s with EmptyString => EmptyString | String c t => String (lower_ascii c) (lower t) end.
+(* what collab_pls does with the name AS GIVEN by the caller *)
+Definition collab_calls_named (two_d : bool) (name : string) (average_dataset : bool) (M : nat)
+    (user : dict val) : list (entry * dict val) :=
+  collab_calls two_d (lower name) average_dataset M user.
+Definition collab_param_keys_named (name : string) : list string := collab_param_keys (lower name).
